@@ -527,6 +527,9 @@ def run(chk: Check):
     rule_a9(chk, tr)
     rule_kind_guard(chk)
     rule_combinators(chk)
+    rule_lookahead_cover(chk, ir)
+    rule_column_unit(chk)
+    chk.floor("A10-lookahead-covers-first", 18)
     chk.floor("A5-loc-key", 300)
     chk.floor("A6-scalar-kind", 60)
     chk.floor("A2-no-lost-capture", 150)
@@ -708,3 +711,76 @@ def rule_combinators(chk: Check):
                 "rule; stop when it fails or does not get longer (`endmark <= lastmark`); otherwise store the longer parse as the new seed; "
                 "finally return to the longest parse. This is what makes `a - b - c` parse as `(a - b) - c`")
     chk.floor(R, 14)
+
+
+def rule_lookahead_cover(chk: Check, ir, rule_id: str = "A10-lookahead-covers-first"):
+    """A positive look-ahead placed in front of a rule reference (a speed-up or a commit point, `&(L1|L2) [~] R`) must admit every
+    token R can start with; otherwise some alternative of R can never be reached through this alternative."""
+    from ..ir import Cut, Group, Lit, Look, Ref, Tok
+    rules = ir.rules
+    first, last, item_n, fl_item, consuming = irtools.first_last(rules, alt_ok=lambda al: not al.invalid_guard)
+    for r, key, a in actions.all_alts(rules):
+        items = a.items
+        if r.name.startswith("invalid_") or a.invalid_guard:
+            continue
+        for j, ni in enumerate(items):
+            it = ni.item
+            if not (isinstance(it, Look) and it.positive):
+                continue
+            allowed = fl_item(it.item, first)
+            if not allowed:
+                continue
+            nxt = next((x.item for x in items[j + 1:] if not isinstance(x.item, Cut)), None)
+            tgt = nxt.alts if isinstance(nxt, Group) else None
+            if isinstance(nxt, Ref) and nxt.name in rules:
+                need = {t for al in rules[nxt.name].alts if not al.invalid_guard for t in _first_of_items(al.items, fl_item, first, item_n)}
+                what = nxt.name
+            elif isinstance(nxt, Group):
+                need = {t for al in nxt.alts for t in _first_of_items(al.items, fl_item, first, item_n)}
+                what = str(nxt)
+            else:
+                continue
+            # a look-ahead on a rule (e.g. &t_lookahead, &cmd_name) compares like with like through FIRST sets
+            chk.count(rule_id)
+            missing = sorted(need - allowed)
+            # soft keywords / NAME: a NAME look-ahead admits every keyword-like literal that is not a hard keyword
+            if "NAME" in allowed:
+                missing = [m for m in missing if not (m.startswith("'") and (m[1].isalpha() or m[1] == "_") and m.strip("'") not in ir.keywords)]
+            chk.require(not missing, rule_id, f"{key}.i{j}:{what}", str(a.pos),
+                        f"`{it}` only lets {sorted(allowed)} through, but `{what}` can also start with {missing}: those forms are cut off "
+                        f"in `{r.name}`")
+
+
+def _first_of_items(items, fl_item, first, item_n):
+    from ..ir import Cut, Look
+    out = set()
+    for ni in items:
+        if isinstance(ni.item, (Look, Cut)):
+            continue
+        out |= fl_item(ni.item, first)
+        if not item_n(ni.item):
+            break
+    return out
+
+
+def rule_column_unit(chk: Check):
+    """Every place that turns token coordinates into node columns must use the same unit.  (CPython counts UTF-8 bytes; this
+    code base counts characters everywhere — a known finding — but mixing the two breaks adjacency and spans.)"""
+    from ..pyflow import Index, own_nodes
+    ix = Index()
+    producers = ["Parser.span", "TokenInfo.loc_start", "TokenInfo.loc_end"]
+    units = {}
+    for q in producers:
+        f = ix.get(q)
+        conv = any(isinstance(n, ast.Call) and isinstance(n.func, ast.Attribute) and n.func.attr in ("encode",) for n in ast.walk(f.node)) or \
+            any(isinstance(n, ast.Call) and isinstance(n.func, ast.Attribute) and norm_stmt(n.func.value) == "self"
+                and n.func.attr not in ("span", "loc_start", "loc_end") and not n.func.attr.startswith("_tokenizer") for n in ast.walk(f.node)
+                if q.startswith("TokenInfo."))
+        units[q] = "bytes/converted" if conv else "characters"
+    chk.count("A5-column-unit")
+    chk.require(len(set(units.values())) == 1, "A5-column-unit", "consistent", repo.SUBHEADER,
+                f"node columns are produced in different units: {units}; adjacency tests and spans compare them with each other")
+    chk.count("A5-column-unit")
+    chk.require(set(units.values()) == {"bytes/converted"}, "A5-column-unit", "utf8-byte-offsets", repo.SUBHEADER,
+                "CPython's col_offset/end_col_offset are UTF-8 byte offsets; here they are character indices: every node after a "
+                "non-ASCII character on its line has different columns from CPython's")
